@@ -1,10 +1,13 @@
 /-
 Lemmas/MeshIntersect.lean — the TriangularMesh self-intersection test (Model/MeshIntersect.lean) over the real carrier with
-`rd = id` (no float32 rounding): what `segments_intersect_facets` decides geometrically (soundness, completeness for proper
-crossings), and how `get_intersecting_triangles` behaves under translation, a common positive length factor and a
-permutation of the face list.  Property-level statements: Props/C16.
+`rd = id` (no float32 rounding), for the REPAIRED code: what `segments_intersect_facets` decides geometrically (exactly: the
+open segment meets the CLOSED facet and both end points are farther than `eps` from its plane), and how
+`get_intersecting_triangles` behaves under translation, a common positive length factor (now with `eps` fixed: the
+normalisation by the mesh size makes `eps` a relative tolerance) and a permutation of the face list.  Property-level
+statements: Props/C16.
 -/
 import MagpyVerif.Lemmas.TrimeshInside
+import MagpyVerif.Lemmas.TrimeshTetra
 import MagpyVerif.Model.MeshIntersect
 
 namespace MagpyVerif.Kern
@@ -103,13 +106,62 @@ theorem signedVol_point (s0 s1 : V3 ℝ) (t : Tri ℝ) :
     simp only [signedVol, rdot_id, rsub_id, rcross_id, rawDist, rawNormal, V3.dot, V3.cross, V3.sub_x, V3.sub_y, V3.sub_z,
       V3.add_x, V3.add_y, V3.add_z, vs] <;> ring
 
+theorem feq_real (a b : ℝ) : feq a b = decide (a = b) := by
+  rw [Bool.eq_iff_iff]
+  simp only [feq, le_real, Bool.and_eq_true, decide_eq_true_eq]
+  exact le_antisymm_iff.symm
+
+theorem veq_iff (p q : V3 ℝ) : veq p q = true ↔ p = q := by
+  simp only [veq, feq_real, Bool.and_eq_true, decide_eq_true_eq]
+  constructor
+  · rintro ⟨⟨h1, h2⟩, h3⟩; exact V3.ext' h1 h2 h3
+  · rintro rfl; exact ⟨⟨rfl, rfl⟩, rfl⟩
+
+/-- the corners of a facet lie in its plane -/
+theorem rawDist_corner (t : Tri ℝ) : rawDist t t.1 = 0 ∧ rawDist t t.2.1 = 0 ∧ rawDist t t.2.2 = 0 := by
+  refine ⟨?_, ?_, ?_⟩ <;>
+    simp only [rawDist, rawNormal, V3.dot, V3.cross, V3.sub_x, V3.sub_y, V3.sub_z] <;> ring
+
+theorem planeDist_corner (t : Tri ℝ) :
+    planeDist id t t.1 = 0 ∧ planeDist id t t.2.1 = 0 ∧ planeDist id t t.2.2 = 0 := by
+  obtain ⟨h0, h1, h2⟩ := rawDist_corner t
+  simp only [planeDist_id, h0, h1, h2, zero_div, and_self]
+
+/-- in exact arithmetic the `touch` mask of the repaired code never changes a verdict: an end point that IS a corner of the
+facet has plane distance 0, which no `eps ≥ 0` lets pass (in float32 that distance is rounding noise, which is why the code
+tests the coordinates) -/
+theorem touchesCorner_false_of_far {eps : ℝ} (heps : 0 ≤ eps) {s0 s1 : V3 ℝ} {t : Tri ℝ}
+    (h0 : eps < |planeDist id t s0|) (h1 : eps < |planeDist id t s1|) : touchesCorner s0 s1 t = false := by
+  obtain ⟨c0, c1, c2⟩ := planeDist_corner t
+  have k : ∀ s q : V3 ℝ, eps < |planeDist id t s| → planeDist id t q = 0 → veq s q = false := by
+    intro s q hs hq
+    rw [Bool.eq_false_iff, ne_eq, veq_iff]
+    rintro rfl
+    rw [hq, abs_zero] at hs
+    linarith
+  simp only [touchesCorner, k s0 _ h0 c0, k s0 _ h0 c1, k s0 _ h0 c2, k s1 _ h1 c0, k s1 _ h1 c1, k s1 _ h1 c2,
+    Bool.or_self]
+
 /-- unfolding of one entry of `segments_intersect_facets` at ℝ -/
 theorem segFacet_id_iff (eps : ℝ) (s0 s1 : V3 ℝ) (t : Tri ℝ) :
     segFacet id eps s0 s1 t = true ↔
       (signNe (planeDist id t s0) (planeDist id t s1) = true ∧ eps < |planeDist id t s0| ∧ eps < |planeDist id t s1|) ∧
-      (signEq (signedVol id s0 s1 t.1 t.2.1) (signedVol id s0 s1 t.2.1 t.2.2) = true ∧
-       signEq (signedVol id s0 s1 t.2.1 t.2.2) (signedVol id s0 s1 t.2.2 t.1) = true) := by
-  simp only [segFacet, planeCrossed, sameVolume, Bool.and_eq_true, lt_real, abs_real, decide_eq_true_eq, id, and_assoc]
+      ((0 ≤ signedVol id s0 s1 t.1 t.2.1 ∧ 0 ≤ signedVol id s0 s1 t.2.1 t.2.2 ∧ 0 ≤ signedVol id s0 s1 t.2.2 t.1) ∨
+       (signedVol id s0 s1 t.1 t.2.1 ≤ 0 ∧ signedVol id s0 s1 t.2.1 t.2.2 ≤ 0 ∧ signedVol id s0 s1 t.2.2 t.1 ≤ 0)) ∧
+      touchesCorner s0 s1 t = false := by
+  simp only [segFacet, planeCrossed, sameVolume, Bool.and_eq_true, Bool.or_eq_true, lt_real, le_real, abs_real,
+    decide_eq_true_eq, id, and_assoc, n, ofNat_real, Nat.cast_zero, Bool.not_eq_eq_eq_not, Bool.not_true]
+
+/-- the same without the `touch` mask, which is implied (any `eps ≥ 0`) -/
+theorem segFacet_id_iff' {eps : ℝ} (heps : 0 ≤ eps) (s0 s1 : V3 ℝ) (t : Tri ℝ) :
+    segFacet id eps s0 s1 t = true ↔
+      (signNe (planeDist id t s0) (planeDist id t s1) = true ∧ eps < |planeDist id t s0| ∧ eps < |planeDist id t s1|) ∧
+      ((0 ≤ signedVol id s0 s1 t.1 t.2.1 ∧ 0 ≤ signedVol id s0 s1 t.2.1 t.2.2 ∧ 0 ≤ signedVol id s0 s1 t.2.2 t.1) ∨
+       (signedVol id s0 s1 t.1 t.2.1 ≤ 0 ∧ signedVol id s0 s1 t.2.1 t.2.2 ≤ 0 ∧ signedVol id s0 s1 t.2.2 t.1 ≤ 0)) := by
+  rw [segFacet_id_iff]
+  constructor
+  · rintro ⟨a, b, _⟩; exact ⟨a, b⟩
+  · rintro ⟨a, b⟩; exact ⟨a, b, touchesCorner_false_of_far heps a.2.1 a.2.2⟩
 
 /-- a reported crossing has a non-degenerate facet and raw plane distances of opposite strict signs -/
 theorem crossed_raw {eps : ℝ} (heps : 0 ≤ eps) {s0 s1 : V3 ℝ} {t : Tri ℝ}
@@ -128,10 +180,10 @@ theorem crossed_raw {eps : ℝ} (heps : 0 ≤ eps) {s0 s1 : V3 ℝ} {t : Tri ℝ
   · exact h
 
 /-- **soundness of the primitive**: if `segments_intersect_facets` (exact arithmetic, any `eps ≥ 0`) reports segment
-`s0 → s1` as intersecting facet `t`, then there is a point in the open segment and in the relative interior of the facet -/
+`s0 → s1` as intersecting facet `t`, then there is a point in the open segment and in the (closed) facet -/
 theorem segFacet_sound {eps : ℝ} (heps : 0 ≤ eps) {s0 s1 : V3 ℝ} {t : Tri ℝ} (h : segFacet id eps s0 s1 t = true) :
-    ∃ p, InOpenSegment s0 s1 p ∧ InTriInterior t p := by
-  obtain ⟨⟨hs, h0, h1⟩, hv01, hv12⟩ := (segFacet_id_iff eps s0 s1 t).mp h
+    ∃ p, InOpenSegment s0 s1 p ∧ InTriangle t p := by
+  obtain ⟨⟨hs, h0, h1⟩, hv⟩ := (segFacet_id_iff' heps s0 s1 t).mp h
   obtain ⟨-, hG⟩ := crossed_raw heps hs h0 h1
   have hsum := signedVol_sum s0 s1 t
   have hpt := signedVol_point s0 s1 t
@@ -146,17 +198,13 @@ theorem segFacet_sound {eps : ℝ} (heps : 0 ≤ eps) {s0 s1 : V3 ℝ} {t : Tri 
     have : G0 = G1 := by linarith
     rw [this] at hG
     exact absurd hG (not_lt.mpr (mul_self_nonneg G1))
-  rw [signEq_real_iff] at hv01 hv12
-  -- all three volumes have the strict sign of D
-  have hsigns : (0 < v0 / D ∧ 0 < v1 / D ∧ 0 < v2 / D) := by
-    rcases hv01 with ⟨a, b⟩ | ⟨a, b⟩ | ⟨a, b⟩ <;> rcases hv12 with ⟨c, d⟩ | ⟨c, d⟩ | ⟨c, d⟩
-    all_goals first
-      | (exfalso; linarith)
-      | (have hDn : D < 0 := by linarith
-         exact ⟨div_pos_of_neg_of_neg a hDn, div_pos_of_neg_of_neg b hDn, div_pos_of_neg_of_neg d hDn⟩)
-      | (have hDp : 0 < D := by linarith
-         exact ⟨div_pos a hDp, div_pos b hDp, div_pos d hDp⟩)
-      | (exfalso; apply hDne; linarith)
+  -- all three volumes have the (weak) sign of D
+  have hsigns : (0 ≤ v0 / D ∧ 0 ≤ v1 / D ∧ 0 ≤ v2 / D) := by
+    rcases hv with ⟨a, b, c⟩ | ⟨a, b, c⟩
+    · have hDp : 0 < D := lt_of_le_of_ne (by linarith) (Ne.symm hDne)
+      exact ⟨div_nonneg a hDp.le, div_nonneg b hDp.le, div_nonneg c hDp.le⟩
+    · have hDn : D < 0 := lt_of_le_of_ne (by linarith) hDne
+      exact ⟨div_nonneg_of_nonpos a hDn.le, div_nonneg_of_nonpos b hDn.le, div_nonneg_of_nonpos c hDn.le⟩
   obtain ⟨p0, p1, p2⟩ := hsigns
   have hτ : 0 < -G1 / D ∧ -G1 / D < 1 := by
     rcases mul_neg_iff.mp hG with ⟨a, b⟩ | ⟨a, b⟩
@@ -179,7 +227,7 @@ theorem segFacet_sound {eps : ℝ} (heps : 0 ≤ eps) {s0 s1 : V3 ℝ} {t : Tri 
 theorem segFacet_sound_closed {eps : ℝ} (heps : 0 ≤ eps) {s0 s1 : V3 ℝ} {t : Tri ℝ} (h : segFacet id eps s0 s1 t = true) :
     ∃ p, InSegment s0 s1 p ∧ InTriangle t p := by
   obtain ⟨p, h1, h2⟩ := segFacet_sound heps h
-  exact ⟨p, h1.closed, h2.closed⟩
+  exact ⟨p, h1.closed, h2⟩
 
 /-- a point farther than `eps ≥ 0` from the facet's plane certifies a facet of positive area -/
 theorem normalLen_pos_of_far {eps : ℝ} (heps : 0 ≤ eps) {t : Tri ℝ} {p : V3 ℝ} (h : eps < |planeDist id t p|) :
@@ -189,15 +237,16 @@ theorem normalLen_pos_of_far {eps : ℝ} (heps : 0 ≤ eps) {t : Tri ℝ} {p : V
   refine ⟨lt_of_le_of_ne (normalLen_nonneg t) (Ne.symm hL), fun h' => g0 ?_⟩
   rw [planeDist_id, h', zero_div]
 
-theorem sign_from_scaled {τ v w G : ℝ} (hτ : 0 < τ) (hw : 0 < w) (h : τ * v = -w * G) : (G < 0 → 0 < v) ∧ (0 < G → v < 0) := by
+theorem sign_from_scaled {τ v w G : ℝ} (hτ : 0 < τ) (hw : 0 ≤ w) (h : τ * v = -w * G) : (G < 0 → 0 ≤ v) ∧ (0 < G → v ≤ 0) := by
   constructor
   · intro hG
-    have : 0 < τ * v := by rw [h]; nlinarith
-    exact (mul_pos_iff_of_pos_left hτ).mp this
-  · intro hG
-    have : τ * v < 0 := by rw [h]; nlinarith
+    have : 0 ≤ τ * v := by rw [h]; nlinarith
     by_contra hn
-    exact absurd (mul_nonneg hτ.le (not_lt.mp hn)) (not_le.mpr this)
+    exact absurd (mul_neg_of_pos_of_neg hτ (not_le.mp hn)) (not_lt.mpr this)
+  · intro hG
+    have : τ * v ≤ 0 := by rw [h]; nlinarith
+    by_contra hn
+    exact absurd (mul_pos hτ (not_le.mp hn)) (not_lt.mpr this)
 
 theorem opp_sign_of_plane {τ G0 G1 : ℝ} (hτ0 : 0 < τ) (hτ1 : τ < 1) (hG1 : G1 ≠ 0) (K : (1 - τ) * G1 + τ * G0 = 0) :
     G0 * G1 < 0 := by
@@ -207,11 +256,11 @@ theorem opp_sign_of_plane {τ G0 G1 : ℝ} (hτ0 : 0 < τ) (hτ1 : τ < 1) (hG1 
   have : τ * (G0 * G1) = -((1 - τ) * (G1 * G1)) := by linear_combination G1 * K
   linarith
 
-/-- **completeness of the primitive for proper crossings**: if the open segment meets the relative interior of the facet
-and both end points are farther than `eps` from the facet's plane, `segments_intersect_facets` (exact arithmetic) reports it -/
+/-- **completeness of the primitive**: if the open segment meets the CLOSED facet (interior, edge or corner) and both end
+points are farther than `eps` from the facet's plane, `segments_intersect_facets` (exact arithmetic) reports it -/
 theorem segFacet_complete {eps : ℝ} (heps : 0 ≤ eps) {s0 s1 : V3 ℝ} {t : Tri ℝ}
     (h0 : eps < |planeDist id t s0|) (h1 : eps < |planeDist id t s1|)
-    (hp : ∃ p, InOpenSegment s0 s1 p ∧ InTriInterior t p) : segFacet id eps s0 s1 t = true := by
+    (hp : ∃ p, InOpenSegment s0 s1 p ∧ InTriangle t p) : segFacet id eps s0 s1 t = true := by
   obtain ⟨p, ⟨τ, hτ0, hτ1, hpτ⟩, ⟨a, b, c, ha, hb, hc, hsum, hpt⟩⟩ := hp
   obtain ⟨hL, hG0ne⟩ := normalLen_pos_of_far heps h0
   obtain ⟨-, hG1ne⟩ := normalLen_pos_of_far heps h1
@@ -254,34 +303,83 @@ theorem segFacet_complete {eps : ℝ} (heps : 0 ≤ eps) {s0 s1 : V3 ℝ} {t : T
   obtain ⟨n0, q0⟩ := sign_from_scaled hτ0 hc K0
   obtain ⟨n1, q1⟩ := sign_from_scaled hτ0 ha K1
   obtain ⟨n2, q2⟩ := sign_from_scaled hτ0 hb K2
-  rw [segFacet_id_iff]
+  rw [segFacet_id_iff' heps]
   refine ⟨⟨?_, h0, h1⟩, ?_⟩
   · apply signNe_of_mul_neg
     rw [planeDist_id, planeDist_id, div_mul_div_comm]
     exact div_neg_of_neg_of_pos hGG (mul_pos hL hL)
-  · rw [signEq_real_iff, signEq_real_iff]
-    rcases lt_or_gt_of_ne hG1ne with hneg | hpos
-    · exact ⟨Or.inr (Or.inr ⟨n0 hneg, n1 hneg⟩), Or.inr (Or.inr ⟨n1 hneg, n2 hneg⟩)⟩
-    · exact ⟨Or.inl ⟨q0 hpos, q1 hpos⟩, Or.inl ⟨q1 hpos, q2 hpos⟩⟩
+  · rcases lt_or_gt_of_ne hG1ne with hneg | hpos
+    · exact Or.inl ⟨n0 hneg, n1 hneg, n2 hneg⟩
+    · exact Or.inr ⟨q0 hpos, q1 hpos, q2 hpos⟩
 
-/-- **the primitive is not complete**: a segment through the midpoint of an edge of the facet has a common point with the
-facet, but one of the three signed volumes is exactly zero, `np.sign` gives 0 ≠ ±1, and nothing is reported for any `eps` -/
-theorem segFacet_misses_edge_crossing :
-    ∃ (s0 s1 : V3 ℝ) (t : Tri ℝ) (p : V3 ℝ), InSegment s0 s1 p ∧ InTriangle t p ∧ ∀ eps : ℝ, segFacet id eps s0 s1 t = false := by
-  refine ⟨⟨1 / 2, 0, 1⟩, ⟨1 / 2, 0, -1⟩, (⟨0, 0, 0⟩, ⟨1, 0, 0⟩, ⟨0, 1, 0⟩), ⟨1 / 2, 0, 0⟩, ⟨1 / 2, by norm_num, by norm_num, ?_⟩,
-    ⟨1 / 2, 1 / 2, 0, by norm_num, by norm_num, le_refl _, by norm_num, ?_⟩, ?_⟩
-  · apply V3.ext' <;> simp [vs] <;> norm_num
+/-- a common point of the CLOSED segment and the closed facet is as good when both end points are off the plane: it cannot be
+an end point -/
+theorem open_of_closed_far {eps : ℝ} (heps : 0 ≤ eps) {s0 s1 : V3 ℝ} {t : Tri ℝ}
+    (h0 : eps < |planeDist id t s0|) (h1 : eps < |planeDist id t s1|) {p : V3 ℝ} (hs : InSegment s0 s1 p)
+    (ht : InTriangle t p) : InOpenSegment s0 s1 p := by
+  obtain ⟨τ, hτ0, hτ1, hp⟩ := hs
+  obtain ⟨a, b, c, -, -, -, hsum, hpt⟩ := ht
+  -- a point of the facet lies in its plane
+  have hplane : rawDist t p = 0 := by
+    have hc' : c = 1 - a - b := by linarith
+    subst hc'
+    rw [hpt]
+    simp only [rawDist, rawNormal, V3.dot, V3.cross, V3.sub_x, V3.sub_y, V3.sub_z, V3.add_x, V3.add_y, V3.add_z, vs]
+    ring
+  have far : ∀ s : V3 ℝ, eps < |planeDist id t s| → p ≠ s := by
+    rintro s hs rfl
+    rw [planeDist_id, hplane, zero_div, abs_zero] at hs
+    linarith
+  refine ⟨τ, lt_of_le_of_ne hτ0 ?_, lt_of_le_of_ne hτ1 ?_, hp⟩
+  · rintro rfl
+    apply far s1 h1
+    rw [hp]; apply V3.ext' <;> simp [vs]
+  · rintro rfl
+    apply far s0 h0
+    rw [hp]; apply V3.ext' <;> simp [vs]
+
+/-- **what the repaired primitive decides, exactly** (exact arithmetic, `eps ≥ 0`): the segment is reported iff both end
+points are farther than `eps` from the facet's plane and the segment has a point in common with the closed facet -/
+theorem segFacet_iff_closed {eps : ℝ} (heps : 0 ≤ eps) (s0 s1 : V3 ℝ) (t : Tri ℝ) :
+    segFacet id eps s0 s1 t = true ↔
+      eps < |planeDist id t s0| ∧ eps < |planeDist id t s1| ∧ ∃ p, InSegment s0 s1 p ∧ InTriangle t p := by
+  constructor
+  · intro h
+    obtain ⟨⟨-, h0, h1⟩, -⟩ := (segFacet_id_iff' heps s0 s1 t).mp h
+    exact ⟨h0, h1, segFacet_sound_closed heps h⟩
+  · rintro ⟨h0, h1, p, hs, ht⟩
+    exact segFacet_complete heps h0 h1 ⟨p, open_of_closed_far heps h0 h1 hs ht, ht⟩
+
+/-- the segment through the midpoint of an edge of the facet that the code before the repair missed for every `eps`
+(one signed volume is exactly 0): reported now, for every `eps` in [0, 1) -/
+theorem segFacet_edge_crossing {eps : ℝ} (h0 : 0 ≤ eps) (h1 : eps < 1) :
+    segFacet id eps (⟨1 / 2, 0, 1⟩ : V3 ℝ) ⟨1 / 2, 0, -1⟩ (⟨0, 0, 0⟩, ⟨1, 0, 0⟩, ⟨0, 1, 0⟩) = true := by
+  have hL : normalLen ((⟨0, 0, 0⟩, ⟨1, 0, 0⟩, ⟨0, 1, 0⟩) : Tri ℝ) = 1 := by
+    simp [normalLen, rawNormal, V3.dot, V3.cross]
+  apply segFacet_complete h0
+  · rw [planeDist_id, hL]; simp [rawDist, rawNormal, V3.dot, V3.cross]; exact h1
+  · rw [planeDist_id, hL]; simp [rawDist, rawNormal, V3.dot, V3.cross]; exact h1
+  · refine ⟨⟨1 / 2, 0, 0⟩, ⟨1 / 2, by norm_num, by norm_num, ?_⟩, ⟨1 / 2, 1 / 2, 0, by norm_num, by norm_num, le_refl _, by norm_num, ?_⟩⟩
+    · apply V3.ext' <;> simp [vs] <;> norm_num
+    · apply V3.ext' <;> simp [vs]
+
+/-- **what is still not reported**: a segment that ENDS in the facet (here in its relative interior) has a point in common
+with it and is reported for no `eps ≥ 0` — the plane distance of that end point is 0.  (Mesh level: an octahedron whose
+equator lies in a face of a box, two needles whose tips lie in each other's plane: replays.) -/
+theorem segFacet_misses_end_in_facet :
+    ∃ (s0 s1 : V3 ℝ) (t : Tri ℝ) (p : V3 ℝ), InSegment s0 s1 p ∧ InTriInterior t p ∧
+      ∀ eps : ℝ, 0 ≤ eps → segFacet id eps s0 s1 t = false := by
+  refine ⟨⟨1 / 4, 1 / 4, 1⟩, ⟨1 / 4, 1 / 4, 0⟩, (⟨0, 0, 0⟩, ⟨1, 0, 0⟩, ⟨0, 1, 0⟩), ⟨1 / 4, 1 / 4, 0⟩, ⟨0, le_refl _, by norm_num, ?_⟩,
+    ⟨1 / 2, 1 / 4, 1 / 4, by norm_num, by norm_num, by norm_num, by norm_num, ?_⟩, ?_⟩
   · apply V3.ext' <;> simp [vs]
-  · intro eps
-    have h0 : signedVol id (⟨1 / 2, 0, 1⟩ : V3 ℝ) ⟨1 / 2, 0, -1⟩ ⟨0, 0, 0⟩ ⟨1, 0, 0⟩ = 0 := by
-      simp [signedVol, V3.dot, V3.cross]
-    have h1 : signedVol id (⟨1 / 2, 0, 1⟩ : V3 ℝ) ⟨1 / 2, 0, -1⟩ ⟨1, 0, 0⟩ ⟨0, 1, 0⟩ = 1 := by
-      simp [signedVol, V3.dot, V3.cross]; norm_num
-    have hs : sameVolume id (⟨1 / 2, 0, 1⟩ : V3 ℝ) ⟨1 / 2, 0, -1⟩ (⟨0, 0, 0⟩, ⟨1, 0, 0⟩, ⟨0, 1, 0⟩) = false := by
-      have : signEq (0 : ℝ) 1 = false := by
-        rw [Bool.eq_false_iff, ne_eq, signEq_real_iff]; norm_num
-      simp only [sameVolume, h0, h1, this, Bool.false_and]
-    simp only [segFacet, hs, Bool.and_false]
+  · apply V3.ext' <;> simp [vs]
+  · intro eps heps
+    rw [Bool.eq_false_iff, ne_eq, segFacet_iff_closed heps]
+    rintro ⟨-, h1, -⟩
+    have : planeDist id ((⟨0, 0, 0⟩, ⟨1, 0, 0⟩, ⟨0, 1, 0⟩) : Tri ℝ) ⟨1 / 4, 1 / 4, 0⟩ = 0 := by
+      rw [planeDist_id]; simp [rawDist, rawNormal, V3.dot, V3.cross]
+    rw [this, abs_zero] at h1
+    linarith
 
 /-! ### the index bookkeeping of `get_intersecting_triangles` -/
 
@@ -363,9 +461,18 @@ theorem getD_map_of_lt {β γ : Type} (f : β → γ) (l : List β) (i : Nat) (h
 section shift
 variable (d : V3 ℝ)
 
+theorem veq_shift (p q : V3 ℝ) : veq (p + d) (q + d) = veq p q := by
+  simp only [veq, feq_real, V3.add_x, V3.add_y, V3.add_z, add_left_inj]
+
+theorem touchesCorner_shift (s0 s1 : V3 ℝ) (t : Tri ℝ) :
+    touchesCorner (s0 + d) (s1 + d) (triShift d t) = touchesCorner s0 s1 t := by
+  simp only [touchesCorner, triShift, veq_shift]
+
 theorem segFacet_shift (eps : ℝ) (s0 s1 : V3 ℝ) (t : Tri ℝ) :
     segFacet id eps (s0 + d) (s1 + d) (triShift d t) = segFacet id eps s0 s1 t := by
-  simp only [segFacet, planeCrossed, sameVolume, planeDist, facetNormal, signedVol, rsub_id, triShift, add_sub_add]
+  have ht := touchesCorner_shift d s0 s1 t
+  simp only [triShift] at ht
+  simp only [segFacet, planeCrossed, sameVolume, planeDist, facetNormal, signedVol, rsub_id, triShift, add_sub_add, ht]
 
 theorem edgesHit_shift (eps : ℝ) (f1 f2 : Tri ℝ) :
     edgesHit id eps (triShift d f1) (triShift d f2) = edgesHit id eps f1 f2 := by
@@ -440,14 +547,29 @@ theorem signedVol_scale (s0 s1 a b : V3 ℝ) :
   simp only [signedVol, rdot_id, rsub_id, rcross_id, V3.dot, V3.cross, V3.sub_x, V3.sub_y, V3.sub_z, vs]
   ring
 
+omit hl in
+theorem mul_nonpos_iff_of_pos_left' {c v : ℝ} (hc : 0 < c) : c * v ≤ 0 ↔ v ≤ 0 :=
+  ⟨fun h => by by_contra hn; exact absurd (mul_pos hc (not_le.mp hn)) (not_lt.mpr h), fun h => mul_nonpos_of_nonneg_of_nonpos hc.le h⟩
+
+theorem veq_scale (p q : V3 ℝ) : veq (vs l p) (vs l q) = veq p q := by
+  simp only [veq, feq_real, vs, mul_right_inj' hl.ne']
+
+theorem touchesCorner_scale (s0 s1 : V3 ℝ) (t : Tri ℝ) :
+    touchesCorner (vs l s0) (vs l s1) (triScale l t) = touchesCorner s0 s1 t := by
+  simp only [touchesCorner, triScale, veq_scale l hl]
+
 /-- one entry of `segments_intersect_facets`: lengths and `eps` multiplied by the same factor give the same verdict -/
 theorem segFacet_scale (eps : ℝ) (s0 s1 : V3 ℝ) (t : Tri ℝ) :
     segFacet id (l * eps) (vs l s0) (vs l s1) (triScale l t) = segFacet id eps s0 s1 t := by
   have h3 : 0 < l * l * l := by positivity
   have e : ∀ g : ℝ, (l * eps < |l * g|) ↔ (eps < |g|) := fun g => by
     rw [abs_mul, abs_of_pos hl]; exact ⟨fun h => lt_of_mul_lt_mul_left h hl.le, fun h => mul_lt_mul_of_pos_left h hl⟩
+  have e0 : ∀ v : ℝ, (0 ≤ l * l * l * v) ↔ (0 ≤ v) := fun v => mul_nonneg_iff_of_pos_left h3
+  have e1 : ∀ v : ℝ, (l * l * l * v ≤ 0) ↔ (v ≤ 0) := fun v => mul_nonpos_iff_of_pos_left' h3
+  have ht := touchesCorner_scale l hl s0 s1 t
+  simp only [triScale] at ht
   simp only [segFacet, planeCrossed, sameVolume, planeDist_scale l hl, signNe_mul_pos l hl, lt_real, abs_real, id, e]
-  simp only [triScale, signedVol_scale l, signEq_mul_pos _ h3]
+  simp only [triScale, signedVol_scale l, le_real, n, ofNat_real, Nat.cast_zero, e0, e1, ht]
 
 theorem edgesHit_scale (eps : ℝ) (f1 f2 : Tri ℝ) :
     edgesHit id (l * eps) (triScale l f1) (triScale l f2) = edgesHit id eps f1 f2 := by
@@ -636,20 +758,150 @@ theorem gatherFacets_map (f : V3 ℝ → V3 ℝ) (verts : List (V3 ℝ)) (tris :
   simp only [Function.comp, getD_map_of_lt f verts _ h1 zero3, getD_map_of_lt f verts _ h2 zero3,
     getD_map_of_lt f verts _ h3 zero3]
 
-theorem getIntersectingTriangles_shift (d : V3 ℝ) (r : Option ℝ) (rf eps : ℝ) (verts : List (V3 ℝ))
+theorem getIntersectingTrianglesCore_shift (d : V3 ℝ) (r : Option ℝ) (rf eps : ℝ) (verts : List (V3 ℝ))
     (tris : List (Nat × Nat × Nat)) (h : TrisInRange verts.length tris) :
-    getIntersectingTriangles id r rf eps (verts.map (· + d)) tris = getIntersectingTriangles id r rf eps verts tris := by
-  simp only [getIntersectingTriangles, verts_map_id]
+    getIntersectingTrianglesCore id r rf eps (verts.map (· + d)) tris = getIntersectingTrianglesCore id r rf eps verts tris := by
+  simp only [getIntersectingTrianglesCore, verts_map_id]
   rw [gatherFacets_map _ _ _ h]
   exact intersectingFacets_shift d r rf eps _
 
-theorem getIntersectingTriangles_scale (l : ℝ) (hl : 0 < l) (r : Option ℝ) (rf eps : ℝ) (verts : List (V3 ℝ))
+theorem getIntersectingTrianglesCore_scale (l : ℝ) (hl : 0 < l) (r : Option ℝ) (rf eps : ℝ) (verts : List (V3 ℝ))
     (tris : List (Nat × Nat × Nat)) (h : TrisInRange verts.length tris) :
-    getIntersectingTriangles id (r.map (l * ·)) rf (l * eps) (verts.map (vs l)) tris
-      = getIntersectingTriangles id r rf eps verts tris := by
-  simp only [getIntersectingTriangles, verts_map_id]
+    getIntersectingTrianglesCore id (r.map (l * ·)) rf (l * eps) (verts.map (vs l)) tris
+      = getIntersectingTrianglesCore id r rf eps verts tris := by
+  simp only [getIntersectingTrianglesCore, verts_map_id]
   rw [gatherFacets_map _ _ _ h]
   exact intersectingFacets_scale l hl r rf eps _
+
+/-! ### the normalisation by the mesh size -/
+
+/-- a mesh whose size is not positive is collapsed to a point -/
+theorem verts_eq_of_size_nonpos (verts : List (V3 ℝ)) (h : ¬ 0 < vertsSize verts) (v : V3 ℝ) (hv : v ∈ verts) :
+    v = vertsMin verts := by
+  obtain ⟨a1, a2, a3⟩ := vertsMin_le verts v hv
+  obtain ⟨b1, b2, b3⟩ := le_vertsMax verts v hv
+  simp only [vertsSize, npMax_real, not_lt, max_le_iff, sub_nonpos] at h
+  obtain ⟨⟨c1, c2⟩, c3⟩ := h
+  exact V3.ext' (le_antisymm (b1.trans c1) a1) (le_antisymm (b2.trans c2) a2) (le_antisymm (b3.trans c3) a3)
+
+/-- an end point in a corner of the facet: never reported -/
+theorem segFacet_of_touch (eps : ℝ) {s0 s1 : V3 ℝ} {t : Tri ℝ} (h : touchesCorner s0 s1 t = true) :
+    segFacet id eps s0 s1 t = false := by
+  simp only [segFacet, h, Bool.not_true, Bool.and_false]
+
+theorem intersectingCore_nil_of_no_hit (n : Nat) (w h : Nat → Nat → Bool) (hh : ∀ i j, i < n → j < n → h i j = false) :
+    intersectingCore n w h = [] := by
+  rw [List.eq_nil_iff_forall_not_mem]
+  intro k hk
+  obtain ⟨-, i, j, hi, hj, -, -, c, -⟩ := (mem_intersectingCore n w h k).mp hk
+  rw [hh i j hi hj] at c
+  exact Bool.false_ne_true c
+
+theorem getD_mem_of_lt {β : Type} (l : List β) (d : β) (k : Nat) (hk : k < l.length) : l.getD k d ∈ l := by
+  simp only [List.getD_eq_getElem?_getD, List.getElem?_eq_getElem hk, Option.getD_some]
+  exact List.getElem_mem hk
+
+/-- a mesh collapsed to a point: nothing is reported, whatever `r`, `r_factor`, `eps` -/
+theorem getIntersectingTrianglesCore_degenerate (r : Option ℝ) (rf eps : ℝ) (verts : List (V3 ℝ))
+    (tris : List (Nat × Nat × Nat)) (h : TrisInRange verts.length tris) (hs : ¬ 0 < vertsSize verts) :
+    getIntersectingTrianglesCore id r rf eps verts tris = [] := by
+  simp only [getIntersectingTrianglesCore, verts_map_id, intersectingFacets]
+  apply intersectingCore_nil_of_no_hit
+  intro i j hi hj
+  have hlen : (gatherFacets verts tris).length = tris.length := by simp [gatherFacets]
+  have key : ∀ k, k < tris.length → (gatherFacets verts tris).getD k zeroTri = (vertsMin verts, vertsMin verts, vertsMin verts) := by
+    intro k hk
+    simp only [gatherFacets]
+    rw [getD_map_of_lt _ tris k hk (0, 0, 0)]
+    obtain ⟨h1, h2, h3⟩ := h _ (getD_mem_of_lt tris (0, 0, 0) k hk)
+    have m : ∀ q, q < verts.length → verts.getD q zero3 = vertsMin verts := fun q hq =>
+      verts_eq_of_size_nonpos verts hs _ (getD_mem_of_lt verts zero3 q hq)
+    rw [m _ h1, m _ h2, m _ h3]
+  rw [key i (hlen ▸ hi), key j (hlen ▸ hj)]
+  have ht : ∀ a b : V3 ℝ, touchesCorner (vertsMin verts) a (vertsMin verts, b, b) = true := by
+    intro a b
+    simp only [touchesCorner, (veq_iff _ _).mpr rfl, Bool.true_or]
+  simp only [edgesHit, segFacet_of_touch _ (ht _ _)]
+  simp
+
+theorem normaliseVerts_pos (r : Option ℝ) (verts : List (V3 ℝ)) (hs : 0 < vertsSize verts) :
+    normaliseVerts r verts = (r.map (· / vertsSize verts), verts.map fun v => vd (v - vertsMin verts) (vertsSize verts)) := by
+  simp only [normaliseVerts, lt_real, n, ofNat_real, Nat.cast_zero, hs, decide_true, if_true]
+
+theorem normaliseVerts_nonpos (r : Option ℝ) (verts : List (V3 ℝ)) (hs : ¬ 0 < vertsSize verts) :
+    normaliseVerts r verts = (r, verts) := by
+  simp only [normaliseVerts, lt_real, n, ofNat_real, Nat.cast_zero, hs, decide_false, Bool.false_eq_true, if_false]
+
+theorem normaliseVerts_length (r : Option ℝ) (verts : List (V3 ℝ)) : (normaliseVerts r verts).2.length = verts.length := by
+  by_cases hs : 0 < vertsSize verts
+  · rw [normaliseVerts_pos r verts hs]; simp
+  · rw [normaliseVerts_nonpos r verts hs]
+
+/-- **`eps` is a fraction of the mesh size**: on a mesh of positive size the repaired `get_intersecting_triangles` is the
+function as it was before the normalisation, called with the tolerance `size · eps` -/
+theorem getIntersectingTriangles_eq_core (r : Option ℝ) (rf eps : ℝ) (verts : List (V3 ℝ)) (tris : List (Nat × Nat × Nat))
+    (h : TrisInRange verts.length tris) (hs : 0 < vertsSize verts) :
+    getIntersectingTriangles id r rf eps verts tris
+      = getIntersectingTrianglesCore id r rf (vertsSize verts * eps) verts tris := by
+  set S := vertsSize verts with hS
+  set lo := vertsMin verts with hlo
+  have hback : verts = ((verts.map fun v => vd (v - lo) S).map (vs S)).map (· + lo) := by
+    rw [List.map_map, List.map_map]
+    conv_lhs => rw [← List.map_id verts]
+    apply List.map_congr_left
+    intro v _
+    apply V3.ext' <;> simp only [id, Function.comp, V3.add_x, V3.add_y, V3.add_z, V3.sub_x, V3.sub_y, V3.sub_z, vs, vd] <;>
+      field_simp <;> ring
+  have hr : (r.map (· / S)).map (S * ·) = r := by
+    cases r with
+    | none => rfl
+    | some x => simp only [Option.map_some]; congr 1; field_simp
+  simp only [getIntersectingTriangles, normaliseVerts_pos r verts hs]
+  conv_rhs => rw [hback]
+  rw [getIntersectingTrianglesCore_shift lo _ _ _ _ _ (by simpa using h),
+    ← hr, getIntersectingTrianglesCore_scale S hs _ _ _ _ _ (by simpa using h), hr]
+
+theorem getIntersectingTriangles_shift (d : V3 ℝ) (r : Option ℝ) (rf eps : ℝ) (verts : List (V3 ℝ))
+    (tris : List (Nat × Nat × Nat)) (h : TrisInRange verts.length tris) :
+    getIntersectingTriangles id r rf eps (verts.map (· + d)) tris = getIntersectingTriangles id r rf eps verts tris := by
+  by_cases hne : verts = []
+  · subst hne; rfl
+  by_cases hs : 0 < vertsSize verts
+  · have hs' : 0 < vertsSize (verts.map (· + d)) := by rw [vertsSize_shift d verts hne]; exact hs
+    simp only [getIntersectingTriangles, normaliseVerts_pos _ _ hs, normaliseVerts_pos _ _ hs', vertsSize_shift d verts hne,
+      vertsMin_shift d verts hne, List.map_map]
+    congr 1
+    apply List.map_congr_left
+    intro v _
+    apply V3.ext' <;> simp only [Function.comp, vd, V3.add_x, V3.add_y, V3.add_z, V3.sub_x, V3.sub_y, V3.sub_z,
+      add_sub_add_right_eq_sub]
+  · have hs' : ¬ 0 < vertsSize (verts.map (· + d)) := by rw [vertsSize_shift d verts hne]; exact hs
+    simp only [getIntersectingTriangles, normaliseVerts_nonpos _ _ hs, normaliseVerts_nonpos _ _ hs']
+    exact getIntersectingTrianglesCore_shift d r rf eps verts tris h
+
+/-- **unit invariance** of the repaired `get_intersecting_triangles` (exact arithmetic): all lengths — vertices and, when
+given, the query radius — multiplied by the same `l > 0`, `eps` unchanged: same report -/
+theorem getIntersectingTriangles_scale (l : ℝ) (hl : 0 < l) (r : Option ℝ) (rf eps : ℝ) (verts : List (V3 ℝ))
+    (tris : List (Nat × Nat × Nat)) (h : TrisInRange verts.length tris) :
+    getIntersectingTriangles id (r.map (l * ·)) rf eps (verts.map (vs l)) tris
+      = getIntersectingTriangles id r rf eps verts tris := by
+  by_cases hs : 0 < vertsSize verts
+  · have hs' : 0 < vertsSize (verts.map (vs l)) := by rw [vertsSize_scale l hl]; exact mul_pos hl hs
+    simp only [getIntersectingTriangles, normaliseVerts_pos _ _ hs, normaliseVerts_pos _ _ hs', vertsSize_scale l hl,
+      vertsMin_scale l hl, List.map_map, Option.map_map]
+    congr 1
+    · cases r with
+      | none => rfl
+      | some x => simp only [Option.map_some, Function.comp]; congr 1; exact mul_div_mul_left _ _ hl.ne'
+    · apply List.map_congr_left
+      intro v _
+      apply V3.ext' <;> simp only [Function.comp, vd, vs, V3.sub_x, V3.sub_y, V3.sub_z, ← mul_sub] <;>
+        exact mul_div_mul_left _ _ hl.ne'
+  · have hs' : ¬ 0 < vertsSize (verts.map (vs l)) := by
+      rw [vertsSize_scale l hl]; intro h'; exact hs ((mul_pos_iff_of_pos_left hl).mp h')
+    simp only [getIntersectingTriangles, normaliseVerts_nonpos _ _ hs, normaliseVerts_nonpos _ _ hs']
+    rw [getIntersectingTrianglesCore_degenerate _ _ _ _ _ h hs,
+      getIntersectingTrianglesCore_degenerate _ _ _ _ _ (by simpa using h) hs']
 
 /-- the triangle list read in the order `σ 0, σ 1, …` -/
 def permuteTris (σ : ℕ → ℕ) (tris : List (Nat × Nat × Nat)) : List (Nat × Nat × Nat) :=
@@ -668,23 +920,152 @@ theorem gatherFacets_permute (σ : ℕ → ℕ) (verts : List (V3 ℝ)) (tris : 
 theorem getIntersectingTriangles_perm (r : Option ℝ) (rf eps : ℝ) (verts : List (V3 ℝ)) (tris : List (Nat × Nat × Nat))
     (σ : Equiv.Perm ℕ) (hσ : ∀ i, σ i < tris.length ↔ i < tris.length) (k : ℕ) :
     k ∈ getIntersectingTriangles id r rf eps verts (permuteTris σ tris) ↔ σ k ∈ getIntersectingTriangles id r rf eps verts tris := by
-  have hlen : (gatherFacets (verts.map (V3.map id)) tris).length = tris.length := by simp [gatherFacets]
-  simp only [getIntersectingTriangles]
+  have hlen : ∀ vv : List (V3 ℝ), (gatherFacets (vv.map (V3.map id)) tris).length = tris.length := fun vv => by simp [gatherFacets]
+  simp only [getIntersectingTriangles, getIntersectingTrianglesCore]
   rw [gatherFacets_permute σ _ tris (fun i hi => (hσ i).mpr hi)]
-  exact intersectingFacets_perm r rf eps _ σ (by rw [hlen]; exact hσ) k
+  exact intersectingFacets_perm _ rf eps _ σ (by rw [hlen]; exact hσ) k
 
 theorem selfIntersecting_perm (verts : List (V3 ℝ)) (tris : List (Nat × Nat × Nat))
     (σ : Equiv.Perm ℕ) (hσ : ∀ i, σ i < tris.length ↔ i < tris.length) :
     selfIntersecting id verts (permuteTris σ tris) = selfIntersecting id verts tris := by
-  have hlen : (gatherFacets (verts.map (V3.map id)) tris).length = tris.length := by simp [gatherFacets]
+  have hlen : ∀ vv : List (V3 ℝ), (gatherFacets (vv.map (V3.map id)) tris).length = tris.length := fun vv => by simp [gatherFacets]
   have key : 1 < (selfIntersectingFaces id verts (permuteTris σ tris)).length ↔
       1 < (selfIntersectingFaces id verts tris).length := by
-    simp only [selfIntersectingFaces, getIntersectingTriangles]
+    simp only [selfIntersectingFaces, getIntersectingTriangles, getIntersectingTrianglesCore]
     rw [gatherFacets_permute σ _ tris (fun i hi => (hσ i).mpr hi)]
     simp only [intersectingFacets_two, ne_eq]
     exact not_congr (intersectingFacets_perm_verdict _ _ _ _ σ (by rw [hlen]; exact hσ))
   unfold selfIntersecting
   exact decide_eq_decide.mpr key
+
+/-! ### `r_factor = 2`: the ball query reaches every pair of facets that have a point in common -/
+
+theorem le_foldl_npMax (xs : List ℝ) (a : ℝ) : a ≤ xs.foldl npMax a ∧ ∀ x ∈ xs, x ≤ xs.foldl npMax a := by
+  induction xs generalizing a with
+  | nil => exact ⟨le_refl _, by simp⟩
+  | cons y ys ih =>
+    obtain ⟨h1, h2⟩ := ih (npMax a y)
+    simp only [List.foldl_cons, List.mem_cons, forall_eq_or_imp]
+    have ea : a ≤ npMax a y := by rw [npMax_real]; exact le_max_left _ _
+    have ey : y ≤ npMax a y := by rw [npMax_real]; exact le_max_right _ _
+    exact ⟨ea.trans h1, ey.trans h1, h2⟩
+
+theorem maxCornerDist_nonneg (facets : List (Tri ℝ)) : 0 ≤ maxCornerDist id facets := by
+  have h := (le_foldl_npMax (facets.flatMap fun t =>
+    [cornerDist id (facetCentre id t) t.1, cornerDist id (facetCentre id t) t.2.1, cornerDist id (facetCentre id t) t.2.2]) (n 0)).1
+  simpa [maxCornerDist, n] using h
+
+theorem cornerDist_sq (c q : V3 ℝ) : cornerDist id c q * cornerDist id c q = V3.dot (q - c) (q - c) := by
+  simp only [cornerDist, rsub_id, rdot_id, id, sqrt_real]
+  exact Real.mul_self_sqrt (by simp only [V3.dot]; nlinarith [mul_self_nonneg (q - c).x, mul_self_nonneg (q - c).y, mul_self_nonneg (q - c).z])
+
+theorem cornerDist_nonneg (c q : V3 ℝ) : 0 ≤ cornerDist id c q := by
+  simp only [cornerDist, id, sqrt_real]; exact Real.sqrt_nonneg _
+
+/-- every corner of every facet is within the largest corner distance of its facet's centroid (squared form) -/
+theorem corner_sq_le_max (facets : List (Tri ℝ)) (t : Tri ℝ) (ht : t ∈ facets) :
+    let M := maxCornerDist id facets
+    let c := facetCentre id t
+    V3.dot (t.1 - c) (t.1 - c) ≤ M * M ∧ V3.dot (t.2.1 - c) (t.2.1 - c) ≤ M * M ∧ V3.dot (t.2.2 - c) (t.2.2 - c) ≤ M * M := by
+  intro M c
+  have hmem : ∀ q ∈ [t.1, t.2.1, t.2.2], cornerDist id c q ≤ M := by
+    intro q hq
+    apply (le_foldl_npMax _ (n 0)).2
+    simp only [List.mem_flatMap]
+    refine ⟨t, ht, ?_⟩
+    simp only [List.mem_cons, List.not_mem_nil, or_false] at hq ⊢
+    rcases hq with rfl | rfl | rfl <;> simp [c]
+  have sq : ∀ q, cornerDist id c q ≤ M → V3.dot (q - c) (q - c) ≤ M * M := by
+    intro q hq
+    rw [← cornerDist_sq]
+    exact mul_self_le_mul_self (cornerDist_nonneg c q) hq
+  exact ⟨sq _ (hmem _ (by simp)), sq _ (hmem _ (by simp)), sq _ (hmem _ (by simp))⟩
+
+/-- a convex combination of three vectors of length ≤ M has length ≤ M (squared form) -/
+theorem convex_sq_le {M : ℝ} {u0 u1 u2 : V3 ℝ} (h0 : V3.dot u0 u0 ≤ M * M) (h1 : V3.dot u1 u1 ≤ M * M)
+    (h2 : V3.dot u2 u2 ≤ M * M) {a b c : ℝ} (ha : 0 ≤ a) (hb : 0 ≤ b) (hc : 0 ≤ c) (hs : a + b + c = 1) :
+    V3.dot (vs a u0 + vs b u1 + vs c u2) (vs a u0 + vs b u1 + vs c u2) ≤ M * M := by
+  simp only [V3.dot, V3.add_x, V3.add_y, V3.add_z, vs] at *
+  have h01 : u0.x * u1.x + u0.y * u1.y + u0.z * u1.z ≤ M * M := by
+    nlinarith [sq_nonneg (u0.x - u1.x), sq_nonneg (u0.y - u1.y), sq_nonneg (u0.z - u1.z)]
+  have h02 : u0.x * u2.x + u0.y * u2.y + u0.z * u2.z ≤ M * M := by
+    nlinarith [sq_nonneg (u0.x - u2.x), sq_nonneg (u0.y - u2.y), sq_nonneg (u0.z - u2.z)]
+  have h12 : u1.x * u2.x + u1.y * u2.y + u1.z * u2.z ≤ M * M := by
+    nlinarith [sq_nonneg (u1.x - u2.x), sq_nonneg (u1.y - u2.y), sq_nonneg (u1.z - u2.z)]
+  have e : M * M = (a + b + c) * (a + b + c) * (M * M) := by rw [hs]; ring
+  rw [e]
+  nlinarith [mul_nonneg (mul_nonneg ha ha) (sub_nonneg.mpr h0), mul_nonneg (mul_nonneg hb hb) (sub_nonneg.mpr h1),
+    mul_nonneg (mul_nonneg hc hc) (sub_nonneg.mpr h2), mul_nonneg (mul_nonneg ha hb) (sub_nonneg.mpr h01),
+    mul_nonneg (mul_nonneg ha hc) (sub_nonneg.mpr h02), mul_nonneg (mul_nonneg hb hc) (sub_nonneg.mpr h12)]
+
+/-- a point of a facet is within the largest corner distance of the facet's centroid (squared form) -/
+theorem point_sq_le_max (facets : List (Tri ℝ)) (t : Tri ℝ) (ht : t ∈ facets) (p : V3 ℝ) (hp : InTriangle t p) :
+    V3.dot (p - facetCentre id t) (p - facetCentre id t) ≤ maxCornerDist id facets * maxCornerDist id facets := by
+  obtain ⟨a, b, c, ha, hb, hc, hs, rfl⟩ := hp
+  obtain ⟨h0, h1, h2⟩ := corner_sq_le_max facets t ht
+  have e : vs a t.1 + vs b t.2.1 + vs c t.2.2 - facetCentre id t
+      = vs a (t.1 - facetCentre id t) + vs b (t.2.1 - facetCentre id t) + vs c (t.2.2 - facetCentre id t) := by
+    have hc' : c = 1 - a - b := by linarith
+    subst hc'
+    apply V3.ext' <;> simp only [V3.add_x, V3.add_y, V3.add_z, V3.sub_x, V3.sub_y, V3.sub_z, vs] <;> ring
+  rw [e]
+  exact convex_sq_le h0 h1 h2 ha hb hc hs
+
+/-- **`r_factor = 2` is enough**: two facets of the mesh that have a point in common have their centroids within
+`2 · (largest corner–centroid distance)`, the default query radius of the repaired code — the ball query offers every
+intersecting pair to the edge tests (with the former 1.5 it did not: two spikes, two needles) -/
+theorem withinBall_of_common_point (facets : List (Tri ℝ)) (t1 t2 : Tri ℝ) (h1 : t1 ∈ facets) (h2 : t2 ∈ facets) (p : V3 ℝ)
+    (hp1 : InTriangle t1 p) (hp2 : InTriangle t2 p) :
+    withinBall (2 * maxCornerDist id facets) (facetCentre id t2) (facetCentre id t1) = true := by
+  have a1 := point_sq_le_max facets t1 h1 p hp1
+  have a2 := point_sq_le_max facets t2 h2 p hp2
+  simp only [V3.dot, V3.sub_x, V3.sub_y, V3.sub_z] at a1 a2
+  simp only [withinBall, le_real, decide_eq_true_eq]
+  nlinarith [sq_nonneg ((p.x - (facetCentre id t1).x) + (p.x - (facetCentre id t2).x)),
+    sq_nonneg ((p.y - (facetCentre id t1).y) + (p.y - (facetCentre id t2).y)),
+    sq_nonneg ((p.z - (facetCentre id t1).z) + (p.z - (facetCentre id t2).z))]
+
+/-- a point on an edge of a facet is a point of the (closed) facet -/
+theorem inTriangle_of_edge (t : Tri ℝ) (p : V3 ℝ) :
+    (InSegment t.1 t.2.1 p → InTriangle t p) ∧ (InSegment t.2.1 t.2.2 p → InTriangle t p) ∧ (InSegment t.2.2 t.1 p → InTriangle t p) := by
+  refine ⟨?_, ?_, ?_⟩
+  · rintro ⟨τ, h0, h1, rfl⟩
+    refine ⟨τ, 1 - τ, 0, h0, by linarith, le_refl _, by ring, ?_⟩
+    apply V3.ext' <;> simp only [V3.add_x, V3.add_y, V3.add_z, V3.sub_x, V3.sub_y, V3.sub_z, vs] <;> ring
+  · rintro ⟨τ, h0, h1, rfl⟩
+    refine ⟨0, τ, 1 - τ, le_refl _, h0, by linarith, by ring, ?_⟩
+    apply V3.ext' <;> simp only [V3.add_x, V3.add_y, V3.add_z, V3.sub_x, V3.sub_y, V3.sub_z, vs] <;> ring
+  · rintro ⟨τ, h0, h1, rfl⟩
+    refine ⟨1 - τ, 0, τ, by linarith, le_refl _, h0, by ring, ?_⟩
+    apply V3.ext' <;> simp only [V3.add_x, V3.add_y, V3.add_z, V3.sub_x, V3.sub_y, V3.sub_z, vs] <;> ring
+
+/-- a reported edge of `f1` against `f2` exhibits a point common to both facets -/
+theorem common_point_of_edgesHit {eps : ℝ} (heps : 0 ≤ eps) (f1 f2 : Tri ℝ) (h : edgesHit id eps f1 f2 = true) :
+    ∃ p, InTriangle f1 p ∧ InTriangle f2 p := by
+  by_cases h0 : segFacet id eps f1.1 f1.2.1 f2 = true
+  · obtain ⟨p, a, b⟩ := segFacet_sound_closed heps h0; exact ⟨p, (inTriangle_of_edge f1 p).1 a, b⟩
+  by_cases h1 : segFacet id eps f1.2.1 f1.2.2 f2 = true
+  · obtain ⟨p, a, b⟩ := segFacet_sound_closed heps h1; exact ⟨p, (inTriangle_of_edge f1 p).2.1 a, b⟩
+  by_cases h2 : segFacet id eps f1.2.2 f1.1 f2 = true
+  · obtain ⟨p, a, b⟩ := segFacet_sound_closed heps h2; exact ⟨p, (inTriangle_of_edge f1 p).2.2 a, b⟩
+  · exfalso
+    simp only [edgesHit, h0, h1, h2] at h
+    simp at h
+
+/-- **no crossing is lost to the ball query** (default `r = None`, `r_factor = 2`): if an edge of facet `i` is reported
+against facet `j` by the primitive, both facets are in the report of `get_intersecting_triangles` -/
+theorem intersectingFacets_complete {eps : ℝ} (heps : 0 ≤ eps) (facets : List (Tri ℝ)) (i j : ℕ) (hi : i < facets.length)
+    (hj : j < facets.length) (hne : i ≠ j) (hit : edgesHit id eps (facets.getD i zeroTri) (facets.getD j zeroTri) = true) :
+    i ∈ intersectingFacets id none 2 eps facets ∧ j ∈ intersectingFacets id none 2 eps facets := by
+  obtain ⟨p, p1, p2⟩ := common_point_of_edgesHit heps _ _ hit
+  have m1 := getD_mem_of_lt facets zeroTri i hi
+  have m2 := getD_mem_of_lt facets zeroTri j hj
+  have hw := withinBall_of_common_point facets _ _ m1 m2 p p1 p2
+  simp only [intersectingFacets, mem_intersectingCore, Flagged, id]
+  have hc : ∀ k, k < facets.length → (facets.map (facetCentre id)).getD k zero3 = facetCentre id (facets.getD k zeroTri) :=
+    fun k hk => getD_map_of_lt _ facets k hk zeroTri zero3
+  refine ⟨⟨hi, i, j, hi, hj, ?_, hne, hit, Or.inl rfl⟩, ⟨hj, i, j, hi, hj, ?_, hne, hit, Or.inr rfl⟩⟩ <;>
+    (rw [hc i hi, hc j hj]; exact hw)
 
 /-! ### concrete evaluations (non-vacuity, and the witness that the absolute `eps` breaks unit invariance) -/
 
@@ -701,21 +1082,18 @@ theorem wit_g0 : planeDist id witT witS0 = 1 := by
 theorem wit_g1 : planeDist id witT witS1 = -1 := by
   rw [planeDist_id, wit_normalLen]; simp [rawDist, rawNormal, witT, witS1, V3.dot, V3.cross]
 
-theorem wit_sameVolume : sameVolume id witS0 witS1 witT = true := by
-  have h0 : signedVol id witS0 witS1 witT.1 witT.2.1 = 1 / 2 := by
-    simp [signedVol, witT, witS0, witS1, V3.dot, V3.cross]; norm_num
-  have h1 : signedVol id witS0 witS1 witT.2.1 witT.2.2 = 1 := by
-    simp [signedVol, witT, witS0, witS1, V3.dot, V3.cross]; norm_num
-  have h2 : signedVol id witS0 witS1 witT.2.2 witT.1 = 1 / 2 := by
-    simp [signedVol, witT, witS0, witS1, V3.dot, V3.cross]; norm_num
-  simp only [sameVolume, h0, h1, h2, Bool.and_eq_true, signEq_real_iff]
-  exact ⟨Or.inr (Or.inr ⟨by norm_num, by norm_num⟩), Or.inr (Or.inr ⟨by norm_num, by norm_num⟩)⟩
+/-- the segment is reported for every tolerance below the distance 1 of its end points from the plane -/
+theorem wit_segFacet_of {eps : ℝ} (h0 : 0 ≤ eps) (h1 : eps < 1) : segFacet id eps witS0 witS1 witT = true := by
+  apply segFacet_complete h0
+  · rw [wit_g0, abs_one]; exact h1
+  · rw [wit_g1, abs_neg, abs_one]; exact h1
+  · refine ⟨⟨1 / 4, 1 / 4, 0⟩, ⟨1 / 2, by norm_num, by norm_num, ?_⟩, ⟨1 / 2, 1 / 4, 1 / 4, by norm_num, by norm_num, by norm_num, by norm_num, ?_⟩⟩
+    · apply V3.ext' <;> simp [vs, witS0, witS1] <;> norm_num
+    · apply V3.ext' <;> simp [vs, witT]
 
 /-- with the code's default `eps = 1e-6` the segment is reported -/
-theorem wit_segFacet : segFacet id (1 / 1000000) witS0 witS1 witT = true := by
-  simp only [segFacet, planeCrossed, wit_g0, wit_g1, wit_sameVolume, Bool.and_true, Bool.and_eq_true, lt_real, abs_real, id,
-    decide_eq_true_eq]
-  refine ⟨⟨signNe_of_mul_neg (by norm_num), by norm_num⟩, by norm_num⟩
+theorem wit_segFacet : segFacet id (1 / 1000000) witS0 witS1 witT = true :=
+  wit_segFacet_of (by norm_num) (by norm_num)
 
 /-- with `eps = 10` (larger than the end points' distance from the plane) it is not -/
 theorem wit_segFacet_big_eps : segFacet id 10 witS0 witS1 witT = false := by
@@ -738,17 +1116,23 @@ theorem witTris_inRange : TrisInRange witVerts.length witTris := by
   simp only [witTris, List.mem_cons, List.not_mem_nil, or_false] at ht
   rcases ht with rfl | rfl <;> simp [witVerts]
 
-/-- both faces of the two-face mesh are reported (query radius 10 given explicitly) -/
-theorem wit_mesh_reported : 0 ∈ getIntersectingTriangles id (some 10) (3 / 2) (1 / 1000000) witVerts witTris ∧
-    1 ∈ getIntersectingTriangles id (some 10) (3 / 2) (1 / 1000000) witVerts witTris := by
+theorem witVerts_size : vertsSize witVerts = 5 := by
+  simp only [vertsSize, vertsMax, vertsMin, witVerts, List.foldl_cons, List.foldl_nil, vMax, vMin, npMax_real, npMin_real]
+  norm_num
+
+/-- both faces of the two-face mesh are reported (query radius 10 given explicitly; the mesh size is 5, so the default
+`eps = 1e-6` acts as 5e-6) -/
+theorem wit_mesh_reported : 0 ∈ getIntersectingTriangles id (some 10) 2 (1 / 1000000) witVerts witTris ∧
+    1 ∈ getIntersectingTriangles id (some 10) 2 (1 / 1000000) witVerts witTris := by
+  rw [getIntersectingTriangles_eq_core _ _ _ _ _ witTris_inRange (by rw [witVerts_size]; norm_num), witVerts_size]
   have hf : gatherFacets (witVerts.map (V3.map id)) witTris = [witT, (witS0, witS1, ⟨5, 5, 0⟩)] := by
     rw [verts_map_id]; rfl
-  have hhit : edgesHit id (1 / 1000000) (witS0, witS1, (⟨5, 5, 0⟩ : V3 ℝ)) witT = true := by
-    simp only [edgesHit, wit_segFacet, if_true]
+  have hhit : edgesHit id (5 * (1 / 1000000)) (witS0, witS1, (⟨5, 5, 0⟩ : V3 ℝ)) witT = true := by
+    simp only [edgesHit, wit_segFacet_of (eps := 5 * (1 / 1000000)) (by norm_num) (by norm_num), if_true]
     simp
   have hw : withinBall (10 : ℝ) (facetCentre id witT) (facetCentre id (witS0, witS1, (⟨5, 5, 0⟩ : V3 ℝ))) = true := by
     simp [withinBall, facetCentre, witT, witS0, witS1, n]; norm_num
-  simp only [getIntersectingTriangles, hf, intersectingFacets, mem_intersectingCore, Flagged]
+  simp only [getIntersectingTrianglesCore, hf, intersectingFacets, mem_intersectingCore, Flagged]
   refine ⟨⟨by simp, 1, 0, by simp, by simp, ?_, by simp, ?_, Or.inr rfl⟩, ⟨by simp, 1, 0, by simp, by simp, ?_, by simp, ?_, Or.inl rfl⟩⟩
   all_goals first | exact hw | exact hhit
 
